@@ -59,15 +59,16 @@ PROPS["C01"] = {
 PROPS["C07"] = {
     "level": "fault_enumeration",
     "technique": "generated UNSTABLE/DATA_SYNC/FILE_SYNC write + COMMIT programs (rapid) -> recorded disk trace -> crash-point x lost-write enumeration -> prefix oracle with stable acknowledgements as lower bound; reply checks for committed level and write verifier",
-    "level_text": "Same engine as C01 with programs biased to writes of all three stability levels on several files interleaved with COMMITs and metadata operations, server option Unstable on (3/4) and off (1/4), clean restarts with and without a preceding COMMIT. Oracle: data readable immediately (sequential oracle on every reply); committed >= requested and FILE_SYNC when the option is off; a reply claiming DATA_SYNC/FILE_SYNC, a COMMIT, or any later stable operation raises the durable lower bound; every crash image and every restart must show a prefix of the acknowledgement order (no hole, nothing stable lost); one verifier per server instance, different across instances. The concurrent acknowledgement unit of C01 runs here with UNSTABLE writes and COMMITs (count 0 = to the end of the file) dominating: a COMMIT or stable request acknowledged while other clients' requests are being refused by the journal must have made everything before it durable in the device image of that moment. Fixed regressions (COMMIT after a refused commit; verifier) run as plain deterministic checks.",
+    "level_text": "Same engine as C01 with programs biased to writes of all three stability levels on several files interleaved with COMMITs and metadata operations, server option Unstable on (3/4) and off (1/4), clean restarts with and without a preceding COMMIT. Oracle: data readable immediately (sequential oracle on every reply); committed >= requested and FILE_SYNC when the option is off; a reply claiming DATA_SYNC/FILE_SYNC, a COMMIT, or any later stable operation raises the durable lower bound; every crash image and every restart must show a prefix of the acknowledgement order (no hole, nothing stable lost); one verifier per server instance, different across instances. The concurrent acknowledgement unit of C01 runs here with UNSTABLE writes and COMMITs (count 0 = to the end of the file) dominating: a COMMIT or stable request acknowledged while other clients' requests are being refused by the journal must have made everything before it durable in the device image of that moment. Fixed regressions (COMMIT after a refused commit; verifier) run as plain deterministic checks. COMMIT windows are enumerated (32 cases): client A's COMMIT is held at each of its first eight device writes while client B completes one or two UNSTABLE writes (to another file, to the same file); A's COMMIT is released and returns, B sends its COMMIT, and the device image at the moment B's COMMIT is acknowledged (cut, and with un-barriered writes lost) must hold everything. In the concurrent acknowledgement unit the device is slow at writing the journal's header block in three cases out of five (0.3-3 ms), so that unstable writes are acknowledged while a flush is under way.",
     "level_note": "As C01. The verifier-difference check compares instances within one case (restarts).",
     "rule": ("unit = one crash image of a write/commit-biased program. Non-trivial: at the crash point at least one UNSTABLE-acknowledged, state-changing operation is not yet covered by a stable acknowledgement. distinct = FNV hash of (program, k, variant)."),
     "assumptions": CRASH_ASSUMPTIONS,
-    "required_classes": ["acknowledgements_verified_in_a_crash_image", "crash_images", "images_with_unstable_acked_ops_pending"],
+    "required_classes": ["commit_windows_in_which_the_flush_was_held", "acknowledgements_verified_in_a_crash_image", "crash_images", "images_with_unstable_acked_ops_pending"],
     "units": [
         {"test": "^TestRegressC07$", "norapid": True, "quick": {"shards": 1}, "thorough": {"shards": 1}},
         {"test": "^TestC07Crash$", "quick": {"checks": 5, "shards": 2, "procs": 8, "timeout": 600},
          "thorough": {"checks": 24, "shards": 4, "procs": 4, "timeout": 7200}},
+        {"test": "^TestC07CommitWindow$", "norapid": True, "quick": {"shards": 4}, "thorough": {"shards": 4}},
         {"test": "^TestC07ConcAck$", "quick": {"checks": 40, "shards": 4}, "thorough": {"checks": 1500, "shards": 8, "timeout": 7200}},
     ],
 }
@@ -162,13 +163,14 @@ PROPS["C19"] = {
 PROPS["C08"] = {
     "level": "exploration",
     "technique": "model-based stateful PBT (rapid) with a handle registry oracle: reuse-heavy histories with restarts and crash recovery, stale sweeps over every procedure and handle position, inode-table exhaustion",
-    "level_text": "Histories of create/remove/mkdir/rmdir/rename-over-target cycles with frequent clean restarts (so inode numbers are reused within a few steps) and crash recoveries from a copy of the disk. Registry oracle: a handle issued for a new object was never issued before in the case; LOOKUP, READDIRPLUS and CREATE replies for a live object always carry its one handle, also after restart and recovery; a stale sweep presents a dead handle (preferring ones whose inode number is live again) to 25 procedure/argument positions incl. both directories of RENAME, FSINFO, PATHCONF, COMMIT - each must answer NFS3ERR_STALE and change nothing. Forged generations and garbage handles are mixed into all operations. One deterministic unit exhausts the inode table (32766 objects), frees everything, restarts, exhausts it again and checks that all 65k handles are distinct and the old ones stale. A concurrent crash unit cuts the disk off (writes block; the contents at that moment are the crash image) while 2-4 clients keep creating and looking up names for 3-15 ms: every handle a reply carried in that window must, after recovery from the image, either name the same object or be stale, and none of the next objects created may receive it. A window unit (enumerated: REMOVE/RENAME/LOOKUP through the directory handle or SETATTR of the child x the first five lock/commit points x write mode) holds one request between dropping and retaking its locks while another client moves the child out, removes the directory, creates a directory that receives the same inode number (the table is otherwise full) and moves the child in again: the held request must not act on the new directory, and the old handle answers STALE afterwards.",
+    "level_text": "Histories of create/remove/mkdir/rmdir/rename-over-target cycles with frequent clean restarts (so inode numbers are reused within a few steps) and crash recoveries from a copy of the disk. Registry oracle: a handle issued for a new object was never issued before in the case; LOOKUP, READDIRPLUS and CREATE replies for a live object always carry its one handle, also after restart and recovery; a stale sweep presents a dead handle (preferring ones whose inode number is live again) to 25 procedure/argument positions incl. both directories of RENAME, FSINFO, PATHCONF, COMMIT - each must answer NFS3ERR_STALE and change nothing. Forged generations and garbage handles are mixed into all operations. One deterministic unit exhausts the inode table (32766 objects), frees everything, restarts, exhausts it again and checks that all 65k handles are distinct and the old ones stale. A concurrent crash unit cuts the disk off (writes block; the contents at that moment are the crash image) while 2-4 clients keep creating and looking up names for 3-15 ms: every handle a reply carried in that window must, after recovery from the image, either name the same object or be stale, and none of the next objects created may receive it. A window unit (enumerated: REMOVE/RENAME/LOOKUP through the directory handle or SETATTR of the child x the first five lock/commit points x write mode) holds one request between dropping and retaking its locks while another client moves the child out, removes the directory, creates a directory that receives the same inode number (the table is otherwise full) and moves the child in again: the held request must not act on the new directory, and the old handle answers STALE afterwards. The reuse windows include RENAMEs between two directories (out of the directory whose handle goes stale, and into it), held at each of their first twelve lock/commit points. A further unit runs 2-6 clients that GETATTR 160 files through their handles on a cold cache, each starting at another file, next to writers: every reply must describe the object the handle was issued for (file id, type, size), during the run, afterwards and after a restart.",
     "level_note": "Unsupported procedures (MKNOD, LINK, FSSTAT, exclusive CREATE) answer NOTSUPP whatever the handle, and requests with '.'/'..' as a name are refused for the name: both are not counted as staleness failures. Sampled histories.",
     "rule": ("unit = one generated history (plus the exhaustion run and the enumerated window cases, non-trivial when the request was held and the number reused). Non-trivial: the history contains a stale sweep of a dead handle whose inode number (file id) belongs to a live object of another generation at that moment. "
              "distinct = FNV hash of the history."),
     "assumptions": COMMON_ASSUMPTIONS,
-    "required_classes": ["stale_sweeps_of_a_reused_inode_number", "crash_recoveries", "inode_exhaustion_files_created", "handles_seen_while_the_disk_was_cut_off", "cases_where_the_new_directory_reused_the_inode_number"],
+    "required_classes": ["program_with_a_working_set_larger_than_the_inode_cache", "stale_sweeps_of_a_reused_inode_number", "crash_recoveries", "inode_exhaustion_files_created", "handles_seen_while_the_disk_was_cut_off", "cases_where_the_new_directory_reused_the_inode_number"],
     "units": [
+        {"test": "^TestC08BigSet$", "quick": {"checks": 10, "shards": 4}, "thorough": {"checks": 300, "shards": 8}},
         {"test": "^TestRegressC08$", "norapid": True, "quick": {"shards": 1}, "thorough": {"shards": 1}},
         {"test": "^TestC08Handles$", "quick": {"checks": 100, "shards": 8, "steps": 40}, "thorough": {"checks": 1500, "shards": 12, "steps": 60}},
         {"test": "^TestC08Exhaust$", "norapid": True, "quick": {"shards": 1}, "thorough": {"shards": 1}},
